@@ -971,6 +971,9 @@ def case_minimize(meta):
         expr += " && %s" % cbool(all(u == v for u, v in probes_f) and all(u == v for u, v in probes_g))
         neg_ok = all(u == v for u, v in probes_f) and all(u == v for u, v in probes_g)
     expr += " && %s && %s && %s" % (cbool(passed_ok), cbool(typ_ok), cbool(grad_passed_ok))
+    cmeth = lambda mth: "None" if mth is None else "(Some %s)" % cstr(str(mth))
+    expr += " && check_minimize_call %s %s %s %s %s %s" % (cmeth(meta["method"]), cbool(meta["with_grad"]), copts(meta.get("kwargs", {})),
+                                                       cmeth(k.get("method")), cbool(k.get("jac") is not None), copts(k, skip=("jac", "method")))
     if not (same and passed_ok and typ_ok and grad_passed_ok):
         fail, sig = "%s: SciPy's result is altered or arguments not passed on (same=%s args=%s type=%s grad=%s)" % (op, same, passed_ok, typ_ok, grad_passed_ok), SIG["minimize"]
     elif not neg_ok:
@@ -982,6 +985,17 @@ def case_minimize(meta):
             fail, sig = ("maximize.solve: info['func'] = %r but the maximised function has value %r at the returned point %s "
                          "(sign of the internal negation not flipped back)" % (info["func"], fv, fl(sol))), SIG["maximize_info"]
     return Case(expr=expr, meta=meta, cell=cell, kind="DECISION", impl_fail=fail, signature=sig or "")
+
+
+def copts(d, skip=()):
+    """numeric keyword options as a Coq list (name, value), sorted by name (non-numeric ones are compared in Python)"""
+    items = []
+    for kk in sorted(d):
+        vv = d[kk]
+        if kk in skip or isinstance(vv, bool) or not isinstance(vv, (int, float, np.integer, np.floating)):
+            continue
+        items.append("(%s, %s)" % (cstr(kk), cq(float(vv))))
+    return clist(items)
 
 
 def case_lbfgsb(meta):
@@ -1019,8 +1033,22 @@ def case_lbfgsb(meta):
     fail = None
     if not (same and args_ok and (int(info["success"]), msg) == exp):
         fail = "L_BFGS_B: result/arguments altered (same=%s args=%s status=%s expected %s)" % (same, args_ok, (info["success"], msg), exp)
-    expr = "check_lbfgsb %s %s %s %s && %s && %s" % (cz(wf), cstr(task), cz(int(info["success"])), cstr(msg), cbool(same), cbool(args_ok))
-    return Case(expr=expr, meta=meta, cell="lbfgsb/warnflag%d/%s%s" % (wf, "grad" if meta["with_grad"] else "nograd", "/scripted" if scripted else ""),
+    # independent reference: SciPy's documented entry point called directly with the same keywords must give the same answer
+    # (the semantics of every option -- e.g. factr is a multiple of machine eps -- whatever entry point the wrapper uses)
+    ref_ok = True
+    if scripted is None:
+        import scipy.optimize as so
+        rx, rf, rd = so.fmin_l_bfgs_b(f, x0.copy(), fprime=g if meta["with_grad"] else None, approx_grad=0 if meta["with_grad"] else 1, **meta.get("kwargs", {}))
+        ref_ok = bool(np.array_equal(np.asarray(sol), rx) and float(info["func"]) == float(rf) and int(info["nit"]) == int(rd["nit"]) and int(info["nfev"]) == int(rd["funcalls"]))
+        if fail is None and not ref_ok:
+            fail = ("L_BFGS_B(%s): returned x=%s f=%r nit=%s nfev=%s, scipy.optimize.fmin_l_bfgs_b with the same keywords returns x=%s f=%r nit=%s nfev=%s"
+                    % (meta.get("kwargs", {}), fl(sol), float(info["func"]), info["nit"], info["nfev"], fl(rx), float(rf), rd["nit"], rd["funcalls"]))
+    expr = "check_lbfgsb %s %s %s %s && %s && %s && %s && check_lbfgsb_call %s %s %s %s %s" % (
+        cz(wf), cstr(task), cz(int(info["success"])), cstr(msg), cbool(same), cbool(args_ok), cbool(ref_ok),
+        cbool(meta["with_grad"]), copts(meta.get("kwargs", {})), cbool(k.get("fprime") is not None), cz(int(k.get("approx_grad", -1))),
+        copts(k, skip=("fprime", "approx_grad")))
+    return Case(expr=expr, meta=meta, cell="lbfgsb/warnflag%d/%s%s%s" % (wf, "grad" if meta["with_grad"] else "nograd", "/scripted" if scripted else "",
+                                                                      ("/kw:" + ",".join(sorted(meta.get("kwargs", {})))) if meta.get("kwargs") else ""),
                 kind="DECISION", impl_fail=fail, signature=SIG["lbfgsb"] if fail else "")
 
 
@@ -1053,7 +1081,14 @@ def case_ls(meta):
                and k.get("loss") == meta["loss"] and k.get("xtol") == meta["tol"] and k.get("max_nfev") == int(meta["maxit"]))
     typ_ok = (isinstance(sol, cuqi.array.CUQIarray) and sol.geometry is geom) if geom is not None else type(sol) is np.ndarray
     fail = None if (same and args_ok and typ_ok) else "LS: result/arguments altered (same=%s args=%s type=%s)" % (same, args_ok, typ_ok)
-    expr = "%s && %s && %s" % (cbool(same), cbool(args_ok), cbool(typ_ok))
+    import scipy.optimize as so
+    ref = so.least_squares(Ff, np.array(meta["x0"], dtype=float), jac=jac, method=meta["method"], loss=meta["loss"], xtol=meta["tol"], max_nfev=int(meta["maxit"]))
+    ref_ok = bool(np.array_equal(np.asarray(sol), ref["x"]) and info["nfev"] == ref["nfev"] and info["message"] == ref["message"])
+    if fail is None and not ref_ok:
+        fail = "LS: returned x=%s nfev=%s, scipy.optimize.least_squares(method, loss, xtol=tol, max_nfev=int(maxit)) returns x=%s nfev=%s" % (fl(sol), info["nfev"], fl(ref["x"]), ref["nfev"])
+    expr = "%s && %s && %s && %s && check_ls_call %s %s %s %s %s %s %s" % (
+        cbool(same), cbool(args_ok), cbool(typ_ok), cbool(ref_ok), cstr(meta["method"]), cstr(meta["loss"]), cq(meta["tol"]), cq(float(meta["maxit"])),
+        cstr(str(k.get("method"))), cstr(str(k.get("loss"))), copts(k))
     return Case(expr=expr, meta=meta, cell="ls/%s/%s/%s" % (meta["method"], meta["loss"], "jac" if meta["with_jac"] else "fd"), kind="DECISION",
                 impl_fail=fail, signature=SIG["ls"] if fail else "")
 
@@ -1323,6 +1358,20 @@ def metas(ctx):
                 if bc == "lo>up":
                     up = [bb - 0.5 for bb in base]
                 out.append({"op": "box", "x": x, "lo": lo, "up": up, "cell": bc})
+    # permanent cells: ProjectBox x every combination lower in {None, scalar, vector} x upper in {None, scalar, vector} (+ given by keyword / position is
+    # the same call); ProximalL1 x gamma {0, tie, positive}; ProjectNonnegative
+    for lo_k, up_k in itertools.product(["none", "scalar", "vector"], repeat=2):
+        for _ in range(2):
+            n = rng.randint(2, 5)
+            x = [float(rng.choice(DY)) for _ in range(n)]
+            x[0], x[1] = -2.5, 2.5                                   # both sides are exercised: below every lower bound used here, above every upper one
+            lo = None if lo_k == "none" else (-0.5 if lo_k == "scalar" else [float(rng.choice([-1.0, -0.5, 0.25])) for _ in range(n)])
+            base = lo if isinstance(lo, list) else [0.0 if lo is None else lo] * n
+            up = None if up_k == "none" else (float(max(base)) + 0.75 if up_k == "scalar" else [bb + float(rng.choice([0.25, 0.5, 1.5])) for bb in base])
+            out.append({"op": "box", "x": x, "lo": lo, "up": up, "cell": "permanent/%s-%s" % (lo_k, up_k)})
+    for gcell, gamma in [("zero", 0.0), ("tie", 2.5), ("pos", 0.75)]:
+        out.append({"op": "prox_l1", "x": [-2.5, 2.5, 0.0, 0.5, -0.75], "gamma": gamma, "cell": "permanent/" + gcell})
+    out.append({"op": "nonneg", "x": [-2.5, 2.5, 0.0, -0.0, 0.5], "cell": "permanent"})
     # ---- LM ----
     for sparse, cell in itertools.product([False, True], ["mild", "strong", "nu0-large"]):
         for _ in range(ctx.n(3, 30)):
@@ -1468,6 +1517,12 @@ def metas(ctx):
     for op, kwargs in itertools.product(["minimize", "maximize"], [{"tol": 1e-3}, {"options": {"maxiter": 2}}, {"bounds": [[-1, 1], [-1, 1]]}]):
         out.append({"op": op, "method": "L-BFGS-B" if "bounds" in kwargs else "BFGS", "with_grad": True, "obj": "quad2", "c": [rng.randint(-3, 3), rng.randint(-3, 3), 1],
                     "x0": [rng.randint(-1, 1), rng.randint(-1, 1)], "cuqiarray": False, "probes": [[1, 2], [0, -1]], "kwargs": kwargs})
+    # every documented keyword of fmin_l_bfgs_b, one at a time and together, with values that change the run
+    for kwargs in [{"m": 3}, {"factr": 1e12}, {"factr": 10.0}, {"pgtol": 1e-2}, {"epsilon": 1e-4}, {"maxfun": 7}, {"maxiter": 3}, {"maxls": 2}, {"iprint": -1}, {"disp": 0},
+                   {"bounds": [[-1, 1], [0, 2]]}, {"m": 4, "factr": 1e10, "pgtol": 1e-6, "maxfun": 40, "maxiter": 20, "maxls": 10}]:
+        for with_grad in ([True, False] if ("epsilon" in kwargs or len(kwargs) > 1) else [True]):
+            out.append({"op": "lbfgsb", "with_grad": with_grad, "obj": "quart2", "c": [rng.randint(-3, 3), rng.randint(-3, 3), rng.randint(-3, 3)],
+                        "x0": [rng.randint(-3, 3), rng.randint(-3, 3)], "kwargs": kwargs})
     for with_grad in [True, False]:
         for kwargs in [{}, {"maxiter": 1}, {"maxfun": 1}]:
             obj = "quart2"
